@@ -15,6 +15,7 @@ PROP = {'drive': ['Metrics'], 'harness_files': ['area_metrics.go', 'area_metrics
                        'C12_caret_partial',
                        'C12_os2_roundtrip',
                        'C12_os2_domain_forced',
+                       'C12_os2_fstype_roundtrip',
                        'C12_fontbbox_union',
                        'C12_fontbbox_needs_wellformed',
                        'C12_avgwidth_def',
